@@ -3,9 +3,10 @@
 # Every chk_*.ml defines  let kinds : (string * (Blocks.block -> Blocks.verdict list)) list
 set -e
 cd "$(dirname "$0")"
+rm -rf _build
 mkdir -p _build
 cp model.ml model.mli conv.ml blocks.ml chk_*.ml driver.ml _build/
 cd _build
-CHK=$(ls chk_*.ml | sort | tr '\n' ' ')
+CHK=$(ocamlfind ocamldep -sort chk_*.ml)
 { printf 'let checkers = List.concat ['; for f in $CHK; do m=$(basename $f .ml); M=$(echo $m | cut -c1 | tr a-z A-Z)$(echo $m | cut -c2-); printf '%s.kinds; ' $M; done; echo ']'; } > registry.ml
 ocamlfind ocamlopt -w -a -package unix -linkpkg model.mli model.ml conv.ml blocks.ml $CHK registry.ml driver.ml -o driver
